@@ -785,3 +785,76 @@ def sink_immediate(rep, lib, rid="C06-SINK-IMMEDIATE"):
         else:
             r.ok(st.short + "::process", "every non-error return has passed a write on self.writer (%d write site(s))"
                  % len(w), b.where())
+
+
+def limiter_wiring(rep, lib, rid="C08-LIMITER-WIRING"):
+    r = rep.rule(rid, "the limiter is built from the command-line numbers themselves: its skip argument is a plain copy "
+                 "of cli.skip and its limit argument a plain copy of cli.take (an Option, so that `--take 0` differs "
+                 "from no --take), with no arithmetic, mapping or call in between; the constructor stores them in the "
+                 "fields of that meaning and builds a limiter whenever one of them is given", floor=4,
+                 analysis="A4 provenance of the two arguments in Master::go + ADT field types + aggregate fields + A5 "
+                          "partial evaluation of Limiter::create_process")
+    go = common.go_body(lib)
+    ca = lib.adts.get("Cli")
+    ma = lib.adts.get("Master")
+    ctor = lib.bodies.get("limits::Limiter::create_process")
+    if go is None or not ca or not ma or ctor is None:
+        r.missing("Master::go / Cli / Limiter::create_process")
+        return
+    cf = [f["name"] for f in ca["variants"][0]["fields"]]
+    cty = {f["name"]: f["ty"] for f in ca["variants"][0]["fields"]}
+    mf = [f["name"] for f in ma["variants"][0]["fields"]]
+    cs = [c for c in go.calls if (c.name or "") == ctor.name]
+    if len(cs) != 1:
+        r.missing("one Limiter::create_process call in Master::go (found %d)" % len(cs))
+        return
+    c = cs[0]
+    pr = Prov(go, LOOK)
+    for ai, fld, want_ty in ((0, "skip", "u64"), (1, "take", "std::option::Option<u64>")):
+        at = pr.call_arg_origins(c, ai)
+        path = ("f%d" % mf.index("cli"), "f%d" % cf.index(fld)) if fld in cf else None
+        core = [a for a in at if a[0] in ("arg", "call", "const", "agg", "local", "op")]
+        plain = path is not None and core and all(
+            a[0] == "arg" and a[1] == 1 and tuple(p for p in a[2] if not str(p).startswith("dc"))[:2] == path for a in core)
+        key = "go#Limiter.%s" % ("skip" if ai == 0 else "limit")
+        if cty.get(fld) != want_ty:
+            r.bad(key, "Cli.%s has type %s, expected %s (an absent --take must differ from --take 0)"
+                  % (fld, cty.get(fld), want_ty), c.where())
+        elif plain:
+            r.ok(key, "self.cli.%s as is" % fld, c.where())
+        else:
+            r.bad(key, "the limiter's %s is not self.cli.%s itself (origins: %s): a transformation in between changes "
+                  "what --skip/--take mean for some value" % ("skip" if ai == 0 else "limit", fld,
+                                                              sorted(map(str, core))[:4]), c.where())
+    # constructor: parameters land in the fields of the same meaning
+    aggs = [rv for bb, idx, place, rv, _ in ctor.assignments() if rv["k"] == "agg" and rv.get("adt") == "limits::Limiter"]
+    cpr = Prov(ctor, LOOK)
+    okc = len(aggs) == 1
+    if okc:
+        named = dict(zip(aggs[0]["fields"], aggs[0]["ops"]))
+        for fld, param in (("skip", 1), ("limit", 2), ("next", 3)):
+            at = {a for a in cpr.origins(named[fld]) if a[0] in ("arg", "call", "const", "agg")}
+            if at != {("arg", param, ())}:
+                okc = False
+    if okc:
+        r.ok("create_process#fields", "skip, limit and next are the parameters of that name", ctor.where())
+    else:
+        r.bad("create_process#fields", "the limiter's fields are not initialised from the parameters of the same meaning",
+              ctor.where())
+    # a limiter is built whenever skip > 0 or a take is given (take = Some(0) included)
+    from lib.peval import some, NONE
+    bad = []
+    for skip in (0, 1):
+        for take in (NONE, some(("i", 0)), some(("i", 2))):
+            res = PE(ctor, None, eq_ok=common.derived_eq_ok(lib)).run(env={1: ("i", skip), 2: take})
+            built = any(rv.get("adt") == "limits::Limiter" for _, _, rv, _ in res.aggs)
+            want = skip > 0 or take != NONE
+            if built != want or res.forks:
+                bad.append((skip, take, built))
+    if bad:
+        skip, take, built = bad[0]
+        r.bad("create_process#when", "with skip=%d and take=%s a limiter is %s" % (
+            skip, "none" if take == NONE else take[2][0][1], "built" if built else "not built (the option is ignored)"),
+            ctor.where())
+    else:
+        r.ok("create_process#when", "a limiter is built iff skip > 0 or a take is given (take 0 included)", ctor.where())
